@@ -196,6 +196,7 @@ def opt_probe_grammars():
     add("o_lister", 'r = { ("a" ~ "b")* ~ "a" }\nr2 = { (("a" | "c") ~ "b")* ~ ("a" | "c") ~ "d"? }\n')
     add("o_reponce", 'r0 = { (\'a\'..\'b\')+ }\nr1 = { "a"+ ~ "b" }\nr2 = ${ "a"+ }\nr3 = !{ ("a" | "b")+ ~ "c"? }\nWHITESPACE = @{ " " }\n')
     add("o_counted", 'r0 = { "a"{2} }\nr1 = { "a"{1,} }\nr2 = { "a"{,2} }\nr3 = { "a"{1,2} ~ "b"? }\nr4 = @{ "a"{2,3} }\nWHITESPACE = _{ " " }\nCOMMENT = _{ "#" }\n')
+    add("o_minmax", 'r = { "a"{2,1} ~ "b" }\nr2 = { "a"{3,1} }\nr3 = @{ ("a" | "b"){2,1} ~ "c"? }\n')
     add("o_passes", r'''
 rot = { ("a" ~ "b") ~ ("c" ~ "d") | ("a" | "b") | "c" }
 cat = @{ "a" ~ "b" ~ ^"c" ~ ^"d" }
@@ -212,8 +213,8 @@ def corpus_grammars(tier, seed):
     sysg = [g for g in corpus.systematic_grammars() if not g["gid"].startswith("s_kinds")]
     if tier != "quick":
         sysg += [g for g in corpus.systematic_grammars() if g["gid"] == "s_kinds_w"]
-    nrand = 40 if tier == "quick" else 160
-    nrec = 40 if tier == "quick" else 160
+    nrand = 40 if tier == "quick" else 80
+    nrec = 40 if tier == "quick" else 120
     gs = recursive_grammars() + opt_probe_grammars() + sysg
     gs += corpus.random_grammars(seed, nrand)
     gs += [dict(g, gid=g["gid"].replace("g", "rec", 1)) for g in corpus.random_grammars(seed + 1, nrec, modes=("recursive",))]
@@ -272,9 +273,9 @@ def strip_boxing(stream):
 # ---------------------------------------------------------------------------------------------
 # one workspace, every option set
 
-def emit_all(grammars, optsets, outdir, nbins):
+def emit_all(grammars, optsets, outdir, nbins, tag=""):
     """Writes `outdir` as ONE cargo workspace: per option set a directory `<set>/` produced by
-    corpus.emit_workspace(attrs=set.attrs) whose crates are renamed `c20<set>_b<k>` (binary names must
+    corpus.emit_workspace(attrs=set.attrs) whose crates are renamed `c20<tag><set>_b<k>` (binary names must
     not collide with other suites in the shared target directory).  Returns {set name: (prefix, where)}."""
     os.makedirs(outdir, exist_ok=True)
     members = []
@@ -287,7 +288,7 @@ def emit_all(grammars, optsets, outdir, nbins):
         lock = os.path.join(sub, "Cargo.lock")
         if os.path.exists(lock):
             os.remove(lock)
-        prefix = f"c20{s.name}_b"
+        prefix = f"c20{tag}{s.name}_b"
         for b in sorted(set(where.values())):
             toml = os.path.join(sub, f"b{b}", "Cargo.toml")
             t = open(toml).read()
@@ -550,6 +551,15 @@ def has_unrolled_rep(e):
         if e[0] in ("reponce",) + COUNTED:
             return True
         return any(has_unrolled_rep(c) for c in e[1:])
+    return False
+
+
+def has_inverted_minmax(e):
+    """contains `e{n,m}` with n > m (pest_meta accepts it; `unroll` turns it into exactly m copies of `e`)."""
+    if isinstance(e, list):
+        if e[0] == "repminmax" and int(e[2]) > int(e[3]):
+            return True
+        return any(has_inverted_minmax(c) for c in e[1:])
     return False
 
 
